@@ -167,4 +167,38 @@ def standin_state_histogram(tier, seed):
                 cases=cases, distinct=cases, failures=len(fails), exhaustive=False, _fails=fails[:3])
 standin_state_histogram.prop = "C18"
 
-STANDINS = [standin_views, standin_numpy_digits, standin_state_histogram]
+def standin_large_results(tier, seed):
+    """histograms of results with more repetitions than any internal batch size: counts sum to the repetitions and equal a direct count"""
+    import collections
+    import random
+
+    import numpy as np
+
+    import cirq
+
+    rng = random.Random(seed + 5)
+    cases, fails = 0, []
+    for reps in (49_999, 50_000, 50_001, 65_000, 100_001) + ((250_000,) if tier == "thorough" else ()):
+        for width, base in ((1, None), (3, None), (2, [3, 2])):
+            dims = base or [2] * width
+            arr = np.array([[rng.randrange(d) for d in dims] for _ in range(1000)], dtype=np.int8)
+            arr = np.tile(arr, (reps // 1000 + 1, 1))[:reps]
+            res = cirq.ResultDict(params=cirq.ParamResolver({}), measurements={"m": arr})
+            cases += 1
+            want = collections.Counter()
+            mult = [int(np.prod(dims[i + 1:])) for i in range(len(dims))]
+            vals, cnts = np.unique(arr.astype(np.int64) @ np.array(mult, dtype=np.int64), return_counts=True)
+            for v, c_ in zip(vals, cnts):
+                want[int(v)] = int(c_)
+            got = res.histogram(key="m", fold_base=base) if base else res.histogram(key="m")
+            if dict(got) != dict(want) or sum(got.values()) != reps:
+                fails.append(dict(args=dict(repetitions=reps, width=width, fold_base=base), failed="large-histogram",
+                                  clause=f"histogram() counts sum to {sum(got.values())} for {reps} repetitions / differ from a direct count"))
+            mm = res.multi_measurement_histogram(keys=["m"])
+            if sum(mm.values()) != reps:
+                fails.append(dict(args=dict(repetitions=reps, width=width), failed="large-histogram", clause="multi_measurement_histogram counts do not sum to the repetitions"))
+    return dict(function="cirq-core/cirq/study/result.py:Result.histogram[large repetition counts]", case="large-results", bound="49,999 .. 100,001 (250,000 in thorough) repetitions x 3 register shapes",
+                cases=cases, distinct=cases, failures=len(fails), exhaustive=False, _fails=fails[:3])
+standin_large_results.prop = "C18"
+
+STANDINS = [standin_views, standin_numpy_digits, standin_state_histogram, standin_large_results]
